@@ -829,7 +829,7 @@ func main() {
 			want := strings.Count(strings.Join(t.segs, ""), "\r\n")
 			_ = want
 			if fs := srvframe.Survival(obs.End, obs.NoSession); len(fs) > 0 {
-				continue // the exploration below reports it with the shortest input
+				break // the exploration below reports it with the shortest input
 			}
 			if err != nil || len(rest) > 0 || tagged == 0 {
 				run.EngineError("transcript %s does not run clean: %q err=%v", t.name, obs.Out, err)
@@ -858,6 +858,9 @@ func main() {
 				rc := mkRaw(t, caps)
 				rc.Segs = t.segs
 				obs := w.RunRaw(rc)
+				if obs.End.Hang != "" {
+					w = srvframe.NewWorker(watchdog)
+				}
 				// one more than the write calls of the clean run (an index past the end never fails)
 				nw := obs.Writes + 1
 				for j := 0; j < nw; j++ {
@@ -899,6 +902,9 @@ func main() {
 					}
 				}
 				if fs := srvframe.Survival(obs.End, obs.NoSession); len(fs) > 0 && obs.EngineErr == "" {
+					if obs.End.Hang != "" {
+						w = srvframe.NewWorker(watchdog)
+					}
 					continue // reported by the exploration below
 				}
 				if !ok || obs.EngineErr != "" {
